@@ -83,6 +83,18 @@ def gen(rng: random.Random, tier: str, idx: int) -> dict:
         pol.setdefault("holds", []).append(dict(lock_site, actor="w0", nth=1, until="w1", until_ops=1))
         if rng.random() < 0.5:
             pol["holds"].append(dict(lock_site, actor="w0", nth=2, until="gc", until_ops=rng.choice([1, 2])))
+    if rng.random() < 0.15 and actors[0]["ops"][0]["kind"] in ("long_append", "multi"):
+        # an EARLY collection: w0 is parked between registering its in-flight marker and writing the data file until a
+        # first collection has run (it meets a marker whose file does not exist yet); the transaction then stays open
+        # past the grace period and a second collection arrives shortly before / inside its commit
+        early_gap = rng.choice([4000.0, 10800.0])
+        actors[0]["ops"][0]["gap"] = early_gap
+        actors[-1]["ops"] = [{"kind": "gc", "grace_ms": grace_ms},
+                             {"kind": "sleep", "dt": max(0.0, early_gap + rng.choice([-5.0, -0.5, delta]))},
+                             {"kind": "gc", "grace_ms": grace_ms}]
+        site = {"op": "create", "cls": "DATA_TMP"} if backend == "local" else {"op": "put", "cls": "DATA"}
+        pol.setdefault("holds", []).append(dict(site, actor="w0", nth=1, until="gc", until_ops=1))
+        pol["early_gc"] = True
     setup = [{"kind": "append", "tag": f"s{k}", "n": 1} for k in range(rng.randint(0, 2))]
     if rng.random() < 0.4:
         setup += [{"kind": "delete_file", "tag": "sd", "k": 0, "with_append": True}, {"kind": "sleep", "dt": 7200.0}]
